@@ -1293,6 +1293,12 @@ func (c *Context) quantize(d, v *Decimal, exp int32) Condition {
 			// MinExponent does not apply to it (with MinExponent 0 and p == 0
 			// it would be taken for a subnormal and rounded at the wrong digit).
 			nc.MinExponent = MinExponent
+			// Nor does MaxExponent: the temporary value has as many integer digits
+			// as are kept, which may be more than MaxExponent+1 although the
+			// result, at its real exponent, is well within range (with Precision
+			// 20 and MaxExponent 1, Quantize(-808671094881.908E-15, -24) overflowed
+			// here and came back as NaN).
+			nc.MaxExponent = MaxExponent
 
 			// The idea here is that the resulting d.Exponent after rounding will be 0. We
 			// have a number of, say, 5 digits, but p (our precision) above is set at, say,
